@@ -1,5 +1,6 @@
 (* C07 — object identity is unique and every reference resolves in its logical file. Statements only. *)
 From DV Require Import Model.ApiDispatch Proofs.BuilderP Proofs.PrimP.
+From DV Require Import Model.EflrReader Proofs.EflrP Proofs.FileP.
 
 (* in every reachable state, within a set (one set type, one set name), objects are told apart by name and copy number:
    same-named objects of one type get distinct copy numbers, for every order of add_* calls, including rejected ones *)
@@ -19,6 +20,23 @@ Theorem C07_reference_roundtrip : forall t o bs r,
   enc_objref t o = OK bs -> dec_objref (bs ++ r) = Some ((t, o), r).
 Proof. exact objref_rt. Qed.
 
+(* what a reader gets for a reference the program stored: under OBNAME the identity (origin, copy number, name) of the
+   referenced item as it stands at write time, under OBJREF that identity together with the set type of the item's type. Combined
+   with C05_record_is_the_set (every record decodes to the set of the state, attribute by attribute through dv_of) this is the
+   clause "decodes to the identity of exactly the object the user passed". *)
+Theorem C07_reference_is_identity : forall st j,
+  dv_of 23 (to_aval st (SItem j)) = Some (DName (snd (ident_of st j)))
+  /\ dv_of 24 (to_aval st (SItem j)) = Some (DRef (fst (ident_of st j)) (snd (ident_of st j))).
+Proof. intros st j. unfold to_aval. destruct (ident_of st j) as [t o]. split; reflexivity. Qed.
+
+(* the identity fields of an item are not touched by the mutations of a write (item_ext keeps name, origin, copy number, type) *)
+Theorem C07_write_keeps_identities : forall st it it', run_checks st it = OK it' ->
+  i_name it' = i_name it /\ i_origin it' = i_origin it /\ i_copy it' = i_copy it /\ i_ty it' = i_ty it.
+Proof.
+  intros st it it' H. destruct (run_checks_ext st it it' H) as (Es & _ & Hid). unfold iid in Hid. injection Hid as H1 H2 H3.
+  apply (f_equal fst) in Es. cbn in Es. auto.
+Qed.
+
 (* KNOWN FINDING (D13), witnessed in the model: copy numbers are counted per set instance, so two sets of one type with
    different set names can hold objects with the same (type, origin, copy, name) *)
 Example C07_refuted_named_sets :
@@ -31,3 +49,5 @@ Proof. vm_compute. split; [reflexivity | discriminate]. Qed.
 Print Assumptions C07_identity_in_set.
 Print Assumptions C07_copy_numbers.
 Print Assumptions C07_reference_roundtrip.
+Print Assumptions C07_reference_is_identity.
+Print Assumptions C07_write_keeps_identities.
